@@ -48,6 +48,8 @@ BASE_PARTIALS = {
     "part/nowbase": "[{% block t %}{{ now | date: '%s' }}{% endblock %}]",
     "part/blk": "<{% block z %}Z{% endblock %}>",
     "part/gv": "[{{ gv }}|{{ shared.n }}|{{ extra }}]",
+    # another spelling: a different template for a dict / namespace store, the same file for a file system
+    "./part/gv": "[dot {{ gv }}|{{ shared.n }}]",
 }
 
 
@@ -128,6 +130,11 @@ STATEFUL = {
     "strobj": ("[{{ bombs }}]|{{ bombs | join: ',' }}|{{ sobj }}", lambda now, d: "[1B3]|1,B,3|" + d["sobj"]["__strobj__"]),
     "nowtwice": ("{{ 'now' | date: '%s' }}-{{ 'now' | date: '%s' }}-{{ now | date: '%s' }}",
                  lambda now, d: f"{int(now)}-{int(now)}-{int(now)}"),
+    # an arrow function whose body reads its parameter twice (state kept on the parsed node between
+    # the two reads shows when another render of the same template runs in between: F12, batches)
+    "lamtwice": ("{{ products | where: x => x.meta.n == x.meta.n | map: i => i.meta.n | join: ',' }}"
+                 "|{% assign hit = products | find: it => it.meta.n >= it.meta.n %}{{ hit.meta.n }}",
+                 lambda now, d: ",".join(str(i) for i in range(len(d["products"]))) + "|" + ("0" if d["products"] else "")),
 }
 NEEDS_PARTIALS = {"inherit", "incpart", "renpart", "nowparts", "nowblock", "macrorender"}
 
@@ -136,7 +143,9 @@ PROBES = (
     "{{ 'abc' | upcase }}|{{ 'ABC' | downcase }}|{{ 'x' | append: 'y' }}",
     "{{ 'a' | shout }}",
     "{% mytag %}",
-    "{{ gv }}|{{ extra }}|{{ missing }}",
+    "{{ gv }}|{{ extra }}|{{ tclass }}|{{ missing }}",
+    "{{ 'a,b' | split: ',' | join: '+' }}|{{ 'q' | upcase }}",
+    "{{ $price }}",
     "{% for i in (1..5) %}{{ i }}{% endfor %}",
     "{{ 'hello' | t }}|{{ 'hi %(you)s' | t: you: 'X' }}",
     "{% if true %}  {% endif %}|",
@@ -155,7 +164,8 @@ PROBES = (
 CONFIG_KINDS = ("add_filter", "replace_filter", "del_filter", "add_tag", "globals_set", "globals_replace",
                 "translation_filters", "translation_filters_var", "translation_filters_default",
                 "loop_limit", "undefined", "trim", "suppress_blank", "output_limit", "replace_tag",
-                "context_depth", "namespace_limit", "auto_escape_on", "replace_json", "currency_de", "loader_add")
+                "context_depth", "namespace_limit", "auto_escape_on", "replace_json", "currency_de", "loader_add",
+                "filter_ctx", "filter_plain", "template_class", "lexer_dollar")
 
 
 class Violation(Exception):
@@ -171,6 +181,20 @@ def _shout(val, *a, **k):
 
 def _weird_upcase(val, *a, **k):
     return "~" + str(val) + "~"
+
+
+class _CtxUpcase:
+    """A class-based, context-aware replacement for a plain built-in filter."""
+
+    with_context = True
+
+    def __call__(self, val, *a, context, **k):
+        return str(val).upper() + "@" + str(context.resolve("gv", default="-"))
+
+
+def _plain_join(val, sep=" "):
+    """A plain replacement for an environment-aware built-in filter."""
+    return str(sep).join(str(i) for i in val)
 
 
 def apply_config(env, op: dict) -> None:
@@ -248,6 +272,14 @@ def apply_config(env, op: dict) -> None:
         t = getattr(env.loader, "templates", None)
         if isinstance(t, dict):     # the application adds a template to this environment's dict loader
             dict.__setitem__(t, "footer", "FOOTER-" + str(op.get("v", "X")))
+    elif k == "filter_ctx":
+        env.filters["upcase"] = _CtxUpcase()
+    elif k == "filter_plain":
+        env.filters["join"] = _plain_join
+    elif k == "template_class":
+        env.template_class = worlds.page_template()
+    elif k == "lexer_dollar":
+        env.lexer_class = worlds.dollar_lexer()
     elif k == "loop_limit":
         env.loop_iteration_limit = 3
     elif k == "output_limit":
@@ -566,6 +598,23 @@ class World:
                 except BaseException as exc:  # noqa: BLE001
                     return canon_exc(exc), None
             d, ctl = self.data(step["data"], fault, "shared" if inst is self.shared else "d")
+            if fault and fault["kind"] == "reent_k":
+                # F12 re-entrancy: at data access k the data source renders the SAME template on the
+                # same environment (nested, with its own plain data) and throws the result away
+                nd = wrap_data(self.raw_data(step["data"]), {"mode": "none"}, DropCtl("n"))
+                if step["data"].get("catalog"):
+                    nd["translations"] = worlds.Catalog("N")
+
+                def nested(t=t, nd=nd):
+                    try:
+                        t.render(**nd)
+                    except Inconclusive:
+                        raise
+                    except Exception:  # noqa: BLE001
+                        pass
+
+                ctl.reenter_at = fault["k"]
+                ctl.reenter = nested
             if step.get("mode", "s") == "s":
                 try:
                     return ("ok", common.norm(t.render(**d))), ctl
@@ -615,6 +664,10 @@ class World:
         h = self.hspec[hid]
         ei = h["env"]
         fresh = self.fresh_for(ei, hid)
+        if (step.get("fault") or {}).get("kind") == "reent_k":
+            # a nested render is an independent render: the reference is the call WITHOUT it
+            step = {k: v for k, v in step.items() if k != "fault"}
+            label += "+reent"
         exp, _ = self.call(fresh, step, solo_sid=ref_sid or f"r{step['id']}")
         self.trace.append([step["id"], label, got, exp])
         self.activate(self.shared, ei)
@@ -676,7 +729,7 @@ class World:
         for src in PROBES:
             try:
                 t = env.from_string(src)
-                out.append(("ok", common.norm(t.render(translations=worlds.Catalog(), nums2=[1, 2.5]))))
+                out.append(("ok", common.norm(t.render(translations=worlds.Catalog(), nums2=[1, 2.5], **{"$price": 21}))))
             except Inconclusive:
                 raise
             except BaseException as exc:  # noqa: BLE001
@@ -721,8 +774,10 @@ def do_step(w: World, step: dict) -> None:
         got = w.obtain(w.shared, hid)
         fresh = w.fresh_for(step["env"], hid)
         exp = fresh.handles.get(hid)
-        a = got if got[0] != "ok" else ("ok", got[1].name, str(got[1].path), got[1].full_name(), str(got[1]))
-        b = exp if exp[0] != "ok" else ("ok", exp[1].name, str(exp[1].path), exp[1].full_name(), str(exp[1]))
+        a = got if got[0] != "ok" else ("ok", got[1].name, str(got[1].path), got[1].full_name(), str(got[1]),
+                                        type(got[1]).__name__)
+        b = exp if exp[0] != "ok" else ("ok", exp[1].name, str(exp[1].path), exp[1].full_name(), str(exp[1]),
+                                        type(exp[1]).__name__)
         if a != b:
             raise Violation("load_differs_from_fresh", step=step["id"], got=_short(a), expected=_short(b))
     elif k in ("render", "analyze"):
@@ -740,6 +795,8 @@ def do_step(w: World, step: dict) -> None:
         got, ctl = w.call(w.shared, step)
         if ctl is not None and ctl.fired:
             w.count("F2_data_fault_fired")
+        if ctl is not None and ctl.reentered:
+            w.count("F12_reentrant_render_fired")
         if got[0] == "err":
             w.count("err:" + got[1])
             if got[1] == "OSError:EIO":
@@ -758,10 +815,11 @@ def do_step(w: World, step: dict) -> None:
             # the process-wide default environment may be configured too (render-time settings only)
             if step["what"] not in ("globals_set", "add_filter", "replace_filter", "loop_limit", "undefined",
                                     "suppress_blank", "output_limit", "replace_json", "translation_filters",
-                                    "currency_de", "loader_add"):
+                                    "currency_de", "loader_add", "filter_ctx", "filter_plain"):
                 return
         elif w.plan["envs"][ei]["loader"].startswith("c") and step["what"] in ("del_filter", "trim", "replace_tag",
-                                                                                "loader_add"):
+                                                                                "loader_add", "template_class",
+                                                                                "lexer_dollar"):
             # parse-time configuration (and changes of the loader's contents): a caching loader
             # legitimately keeps templates parsed under the earlier configuration / contents,
             # a fresh one re-parses them (permitted staleness is C14's subject, not C09's)
@@ -866,7 +924,7 @@ def do_sweep(w: World, step: dict) -> None:
     got, ctl = w.call(w.shared, base)
     w.judge(base, got, "sweep-base")
     kind = step["kind"]
-    if kind == "data_k":
+    if kind in ("data_k", "reent_k"):
         n = ctl.count if ctl is not None else 0
         key = "k"
     elif kind == "loader_j":
@@ -889,6 +947,8 @@ def do_sweep(w: World, step: dict) -> None:
         w.count("sweep_positions")
         if ctl2 is not None and ctl2.fired:
             w.count("F2_data_fault_fired")
+        if ctl2 is not None and ctl2.reentered:
+            w.count("F12_reentrant_render_fired")
         if got[0] == "err" and got[1] == "OSError:EIO":
             w.count("F3_loader_fault_fired")
         if got[0] == "err":
@@ -1086,6 +1146,14 @@ def gen_plan(seed: int, tier: str) -> dict:
             "globals": None if plain else rng.choice([None, {"gv": "E", "cfgd": {"items": [1, 2, 3], "k": "v"}}]),
         }
         envs.append(spec)
+    # application subclasses (own random stream: earlier plans keep their shape)
+    rng3 = random.Random(f"c09x:{seed}")
+    for e in envs:
+        if not e.get("default_global"):
+            if rng3.random() < 0.2:
+                e["env"] = {**e["env"], "template_class": True}
+            if rng3.random() < 0.12:
+                e["env"] = {**e["env"], "lexer": "dollar"}
     uid = [0]
 
     def nid():
@@ -1129,7 +1197,7 @@ def gen_plan(seed: int, tier: str) -> dict:
             st = {"op": "get", "id": nid(), "h": hid, "env": ei, "name": rng.choice(names), "prog": "partial"}
             if rng.random() < 0.35:
                 # the same name fetched by several callers with equal-but-different globals (1 == True == 1.0)
-                st["name"] = "part/gv"
+                st["name"] = rng.choice(["part/gv", "part/gv", "./part/gv"])
                 st["globals"] = {"gv": rng.choice([1, True, 1.0, 0, False, "1"]), "shared": {"n": rng.choice([1, True])}}
         if rng.random() < (0.5 if dg else 0.25):
             st["globals"] = {"gv": rng.choice(["G1", "G2", 1, True, 1.0]), "shared": {"list": [1, 2], "n": rng.choice([1, 2])}}
@@ -1137,6 +1205,13 @@ def gen_plan(seed: int, tier: str) -> dict:
             st["name"] = rng.choice(["main", "dir/page.html"])
         steps.append(st)
         handles.append((hid, ei))
+        if st["op"] == "get" and rng.random() < 0.45:
+            # the same name once more (a cache hit where the loader caches), other globals
+            h2 = len(handles)
+            steps.append({**st, "id": nid(), "h": h2,
+                          "globals": {"gv": rng.choice(["H1", "H2", 1, True]), "shared": {"n": 3}}})
+            handles.append((h2, ei))
+            steps.append({"op": "render", "id": nid(), "h": h2, "mode": rng.choice("sa"), "data": data_spec()})
         if st.get("prog") == "bad" and rng.random() < 0.7:
             h2 = len(handles)
             steps.append({"op": "parse", "id": nid(), "h": h2, "env": ei, "src": rng.choice(gen_progs), "prog": "gen"})
@@ -1161,6 +1236,8 @@ def gen_plan(seed: int, tier: str) -> dict:
                 st["fault"] = {"kind": "loader_j", "j": rng.randint(1, 4)}
             elif fr < 0.22 and st["mode"] == "a":
                 st["fault"] = {"kind": "cancel_j", "j": rng.randint(1, 10)}
+            elif fr < 0.27:
+                st["fault"] = {"kind": "reent_k", "k": rng.randint(1, 12)}
             steps.append(st)
             if rng.random() < 0.5:  # render the same handle again straight away
                 ds = data_spec()
@@ -1228,7 +1305,7 @@ def gen_plan(seed: int, tier: str) -> dict:
         elif r < 0.93:
             hid = rng.choice(handles)[0]
             steps.append({"op": "sweep", "id": nid(), "h": hid, "mode": rng.choice("sa"), "data": data_spec(),
-                          "kind": rng.choice(["data_k", "data_k", "loader_j", "cancel_j"]),
+                          "kind": rng.choice(["data_k", "data_k", "loader_j", "cancel_j", "reent_k"]),
                           "cap": 12 if tier == "quick" else 64})
         else:
             prog = rng.choice([p for p in STATEFUL if p not in NEEDS_PARTIALS])
